@@ -70,10 +70,20 @@ def hidden(rel_path: str) -> bool:
 LANGUAGE_OF_NAME = {"BUILD": "Python", "WORKSPACE": "Python", "SConstruct": "Python", "SConscript": "Python", "BUCK": "Python", "BUILD.bazel": "Python", "TARGETS": "Python"}
 
 
+# Pygments picks, among the lexers whose file-name patterns match, the one with the highest priority and then the
+# greatest class name: the Makefile ('Makefile.*') and Kconfig ('Kconfig*') lexers therefore take these names away from
+# the C#, Java and JavaScript lexers (not from Python, C, C++ and TypeScript, whose lexers win the tie). Transcribed from
+# Pygments 2.x and cross-checked against it by vf.props.c11.selftest_names.
+CLAIMED_STEMS = ("Makefile.", "Kconfig")
+CLAIMED_EXT = ("cs", "java", "js", "mjs")
+
+
 def language_of(rel_path: str):
     name = rel_path.split("/")[-1]
     if name in LANGUAGE_OF_NAME:
         return LANGUAGE_OF_NAME[name]
+    if name.startswith(CLAIMED_STEMS) and "." in name and name.rsplit(".", 1)[1] in CLAIMED_EXT:
+        return None
     if "." not in name:
         return None
     return LANGUAGE_OF_EXT.get(name.rsplit(".", 1)[1])
